@@ -16,6 +16,7 @@ import Proofs.SchedTrans
 import Martian.SchedProgress
 import Proofs.SchedProgress
 import Proofs.SchedFail
+import Proofs.SchedFailReach
 
 /-! ### definitional unfoldings (documentation of the model, not guarantees)
 The theorems whose docstring starts with DEFINITIONAL UNFOLDING (failed_fork_meta_fails_fork, complete_needs_no_failure, failed_first_fork_reported, independent_unaffected) restate a guard
@@ -185,27 +186,23 @@ theorem independent_node_can_progress {g : List NodeInfo} {s : State} {n : Nat} 
       hfresh hpre hclean halive hd)
   · exact Or.inl rfl
 
-/-- `failed_job_never_reports_success_partial` (the headline "the pipestance ends failed and never
-reports success", lifted over histories): let job object `o` of stage fork (n, f) be SEEN failed
-while the fork is unfinished, where `o` is the join; or a chunk the split defined, the join not
-having been submitted; or the split, no chunk and no join having been submitted (`FailedBlock`:
-these are the situations in which a job's own `_errors`/`_assert`, a silent death or mrp's
-`_errors` can arise, see the guards of `jobend`/`silentfail`/`mrpWriteOk`).  Then along EVERY
-continuation (any events: interruptions, other failures, restarts, resets of other objects,
-fork-structure events) in which `o` itself is not reset, the fork never becomes complete or
-disabled and stays in its node's fork list (re-attaching drops a fork from the list only when
-its directories are empty: `unlist_failed_fork_rejected`) — so its node is never
-Complete/Disabled and the pipestance is never `Finished`.
-PARTIAL: the precondition is not derived from reachability (a theorem "every reachable state
-with a failed job object of an unfinished fork satisfies `FailedBlock`" would need the
-completion chain under failures); fork-level failure markers are covered by
-`failed_fork_sticks`; pipelines have no job objects.  The three histories by which the
-previous model reached `Finished` with a failed object (a `silentfail` after completion,
-`_errors` then `_complete` of one job, a failed chunk forgotten by redefining the chunk count
-at re-attach) are rejected now: `late_silentfail_rejected`, `errors_then_complete_rejected`,
-`forget_failed_chunk_rejected`; so is the fourth (the failed fork unlisted by `forkorder` at
-re-attach): `unlist_failed_fork_rejected`. -/
-theorem failed_job_never_reports_success_partial {g : List NodeInfo} {s0 : State}
+/-- `failed_block_never_reports_success` (formerly `failed_job_never_reports_success_partial`; the
+invariant form of the headline theorem `failed_job_never_reports_success` below): let job object
+`o` of stage fork (n, f) be SEEN failed while the fork is unfinished, where `o` is the join; or a
+chunk the split defined, the join not having been submitted; or the split, no chunk and no join
+having been submitted (`FailedBlock`).  Then along EVERY continuation (any events: interruptions,
+other failures, restarts, resets of other objects, fork-structure events) in which `o` itself is
+not reset, the fork never becomes complete or disabled and stays in its node's fork list
+(re-attaching drops a fork from the list only when its job directories are empty:
+`unlist_failed_fork_rejected`) — so its node is never Complete/Disabled and the pipestance is
+never `Finished`.  The side conditions of `FailedBlock` are consequences of reachability
+(`failedBlock_of_reach`, Proofs/SchedFailReach.lean): that is the headline theorem.
+The histories by which earlier models reached `Finished` with a failed object (a `silentfail`
+after completion, `_errors` then `_complete` of one job, a failed chunk forgotten by redefining
+the chunk count at re-attach, the failed fork unlisted by `forkorder` at re-attach) are rejected:
+`late_silentfail_rejected`, `errors_then_complete_rejected`, `forget_failed_chunk_rejected`,
+`unlist_failed_fork_rejected`. -/
+theorem failed_block_never_reports_success {g : List NodeInfo} {s0 : State}
     {σ : Nat → State} {es : Nat → Ev} {n f : Nat} {o : Obj} (hr : Reach g s0)
     (hrun : Run s0 σ es) (hnr : ∀ i, es i ≠ .reset o) (h0 : FailedBlock s0 n f o)
     (hn : n < s0.nodes.length) (hf : f ∈ s0.forksOf n) :
@@ -230,13 +227,34 @@ theorem failed_job_never_reports_success_partial {g : List NodeInfo} {s0 : State
   exact ⟨hb.failed, hb.unfinished, hfj, hnd,
     fun hfin => by rw [(hfin.2 n (by rw [hnodes]; exact hn)).1] at hnd; cases hnd⟩
 
-/-- the case of `failed_job_never_reports_success_partial` in which NOTHING is assumed beyond what
-is observed: the JOIN of a listed, unfinished stage fork is seen failed in a reachable state
-(`FailSite.join` has no side condition).  Then along every continuation in which the join is
-not reset the fork never finishes, its node is never Complete/Disabled and the pipestance is
-never `Finished`.  (For a failed chunk or split the side conditions of `FailSite` — the join
-directory still empty; for the split also no chunk submitted — remain assumptions: that is the
-gap named in `failed_job_never_reports_success_partial`.) -/
+/-- `failed_job_never_reports_success` (the headline "a pipestance with a failed, un-reset job never
+reports success", for EVERY reachable state, no side condition assumed): in a state reached by
+any accepted history (default reset mode) let a job object `⟨n, f, r⟩` — split, chunk or join —
+of a listed, unfinished fork of a stage node be seen failed by mrp.  Then along EVERY
+continuation (any events: interruptions, other failures, restarts, resets of other objects,
+fork-structure events) in which this object is not reset, it stays failed, the fork never becomes
+complete or disabled and stays listed, its node is never Complete/Disabled and the pipestance is
+never `Finished`.  The premises are what is observed (the object's state in mrp's cache, the fork
+being listed and unfinished, the node being a stage); that a failed chunk lies in the defined
+range with the join directory still empty, and that a failed split means no chunk and no join
+submitted, is PROVED for reachable states (`failedBlock_of_reach`: the completion chain under
+failures, invariants `EndInv` and `ChainF`).
+What this does not say: liveness (mrp eventually reports Failed: `failed_fork_can_be_masked`);
+a failure that is only on disk and not yet read by mrp; FullStageReset mode; fork-level failure
+markers are covered by `failed_fork_sticks`; pipelines have no job objects. -/
+theorem failed_job_never_reports_success {g : List NodeInfo} {s0 : State}
+    {σ : Nat → State} {es : Nat → Ev} {n f : Nat} {r : Role} (hr : Reach g s0)
+    (hrun : Run s0 σ es) (hnr : ∀ i, es i ≠ .reset ⟨n, f, r⟩)
+    (hk : s0.kind n ≠ .pipeline) (hrole : r ≠ .fork)
+    (hfail : s0.st ⟨n, f, r⟩ = some .failed) (hopen : fmDone s0 n f = false)
+    (hn : n < s0.nodes.length) (hf : f ∈ s0.forksOf n) :
+    ∀ j, (σ j).st ⟨n, f, r⟩ = some .failed ∧ fmDone (σ j) n f = false ∧
+      f ∈ (σ j).forksOf n ∧ nodeDone (σ j) n = false ∧ ¬ Finished (σ j) :=
+  failed_block_never_reports_success hr hrun hnr
+    (failedBlock_of_reach hr hk hrole hfail hopen) hn hf
+
+/-- its instance for the join (proved before the general derivation; `FailSite.join` has no side
+condition) -/
 theorem failed_join_never_reports_success {g : List NodeInfo} {s0 : State}
     {σ : Nat → State} {es : Nat → Ev} {n f : Nat} (hr : Reach g s0)
     (hrun : Run s0 σ es) (hnr : ∀ i, es i ≠ .reset ⟨n, f, .join⟩)
@@ -244,7 +262,7 @@ theorem failed_join_never_reports_success {g : List NodeInfo} {s0 : State}
     (hopen : fmDone s0 n f = false) (hn : n < s0.nodes.length) (hf : f ∈ s0.forksOf n) :
     ∀ j, (σ j).st ⟨n, f, .join⟩ = some .failed ∧ fmDone (σ j) n f = false ∧
       f ∈ (σ j).forksOf n ∧ nodeDone (σ j) n = false ∧ ¬ Finished (σ j) :=
-  failed_job_never_reports_success_partial hr hrun hnr ⟨hk, hfail, hopen, .join⟩ hn hf
+  failed_block_never_reports_success hr hrun hnr ⟨hk, hfail, hopen, .join⟩ hn hf
 
 /-- one step of it, in any reachable state -/
 theorem failed_blocks_fork {g : List NodeInfo} {s : State} {e : Ev} {n f : Nat} {o : Obj}
@@ -421,16 +439,45 @@ theorem unlist_failed_fork_rejected :
        .crash, .restart, .forkorder 0 []] = some (15, "dropped-fork-not-empty") := by decide
 
 /-- … and that state satisfies `FailedBlock`: the chunk is seen failed, in range, the join has
-not been submitted — `failed_job_never_reports_success_partial` applies to every continuation -/
-def sFailedChunk : State :=
-  prefixState (init gS)
-    [.fork 0 0, .nodestate 0 .running, .refresh, .launch ⟨0, 0, .split⟩,
-     .joblog ⟨0, 0, .split⟩, .jobend ⟨0, 0, .split⟩ .complete, .R ⟨0, 0, .split⟩ .complete,
-     .mkchunks 0 0 1, .launch ⟨0, 0, .chunk 0⟩, .joblog ⟨0, 0, .chunk 0⟩,
-     .jobend ⟨0, 0, .chunk 0⟩ .errors, .R ⟨0, 0, .chunk 0⟩ .errors] 12
+not been submitted — as `failedBlock_of_reach` proves for every reachable state -/
+def hFailedChunk : List Ev :=
+  [.fork 0 0, .nodestate 0 .running, .refresh, .launch ⟨0, 0, .split⟩,
+   .joblog ⟨0, 0, .split⟩, .jobend ⟨0, 0, .split⟩ .complete, .R ⟨0, 0, .split⟩ .complete,
+   .mkchunks 0 0 1, .launch ⟨0, 0, .chunk 0⟩, .joblog ⟨0, 0, .chunk 0⟩,
+   .jobend ⟨0, 0, .chunk 0⟩ .errors, .R ⟨0, 0, .chunk 0⟩ .errors]
+def sFailedChunk : State := prefixState (init gS) hFailedChunk 12
 
 example : FailedBlock sFailedChunk 0 0 ⟨0, 0, .chunk 0⟩ :=
   ⟨by decide, by decide, by decide, .chunk 0 (by decide) ⟨by decide, by decide⟩⟩
+
+/-- the premises of `failed_job_never_reports_success` for a failed CHUNK in a reachable state -/
+example : Reach gS sFailedChunk := run_reach (run_of_list _ hFailedChunk (by decide)) 12
+example : sFailedChunk.kind 0 ≠ .pipeline ∧ sFailedChunk.st ⟨0, 0, .chunk 0⟩ = some .failed ∧
+    fmDone sFailedChunk 0 0 = false ∧ 0 < sFailedChunk.nodes.length ∧
+    0 ∈ sFailedChunk.forksOf 0 := by decide
+
+/-- … and for a failed SPLIT (its job reports `_errors`, mrp reads it) -/
+def hFailedSplit : List Ev :=
+  [.fork 0 0, .nodestate 0 .running, .refresh, .launch ⟨0, 0, .split⟩,
+   .joblog ⟨0, 0, .split⟩, .jobend ⟨0, 0, .split⟩ .errors, .R ⟨0, 0, .split⟩ .errors]
+def sFailedSplit : State := prefixState (init gS) hFailedSplit hFailedSplit.length
+
+example : Reach gS sFailedSplit := run_reach (run_of_list _ hFailedSplit (by decide)) _
+example : sFailedSplit.kind 0 ≠ .pipeline ∧ sFailedSplit.st ⟨0, 0, .split⟩ = some .failed ∧
+    fmDone sFailedSplit 0 0 = false ∧ 0 < sFailedSplit.nodes.length ∧
+    0 ∈ sFailedSplit.forksOf 0 := by decide
+
+/-- the fifth history by which a pipestance could have finished past a failed job: mrp fails the
+SPLIT after its chunks have been submitted (`Fork.getState` looks at the chunks before the split:
+complete chunks would carry the fork past the failed split).  The real mrp writes a split's
+`_errors` only while the split runs or when `_stage_defs` cannot be read, i.e. before any chunk
+exists; the model's guard says so, and `failedBlock_of_reach` rests on it. -/
+theorem split_failed_after_chunks_rejected :
+    rejectedAt gS
+      [.fork 0 0, .nodestate 0 .running, .refresh, .launch ⟨0, 0, .split⟩,
+       .joblog ⟨0, 0, .split⟩, .jobend ⟨0, 0, .split⟩ .complete, .R ⟨0, 0, .split⟩ .complete,
+       .mkchunks 0 0 1, .launch ⟨0, 0, .chunk 0⟩, .W ⟨0, 0, .split⟩ .errors]
+      = some (9, "write-not-enabled") := by decide
 
 /-- the premises of `failed_join_never_reports_success` in a reachable state: the chunk completes,
 the join is submitted and fails -/
